@@ -21,12 +21,13 @@ Example mod_negative_refuted :
   matched scx e (obj_of r) = Matched false /\ selected e r = false.
 Proof. vm_compute. repeat split. Qed.
 
-(* (b)  x NOT IN (1, NULL)  with x = 0: Python True, SQL UNKNOWN *)
-Example not_in_null_refuted :
+(* (b)  x NOT IN (1, NULL)  with x = 0: SQL UNKNOWN.  Repaired by e2dd2ce: the evaluator now returns None
+   (formerly Python's "0 not in [1, None]" = True), so the witness is inside the guarded region and faithful *)
+Example not_in_null_now_faithful :
   let e := EIn true (ECol 0) [SInt 1; SNull] in
   let r := mkrow (SInt 0) (SInt 0) SNull SNull in
-  wt scx e = Some TyBool /\ guard e r = false /\
-  matched scx e (obj_of r) = Matched false /\ selected e r = false.
+  wt scx e = Some TyBool /\ guard e r = true /\
+  matched scx e (obj_of r) = NotMatched /\ selected e r = false /\ ev scx e (obj_of r) = POk VNone.
 Proof. vm_compute. repeat split. Qed.
 
 (* (b')  x NOT IN ()  with x = NULL: SQL TRUE (C07), Python None *)
@@ -65,13 +66,13 @@ Example partially_expired_refuted :
   update_row e [(1%nat, lit_i 9)] r 1%nat = SInt 0.
 Proof. vm_compute. repeat split. eexists. split; reflexivity. Qed.
 
-(* (e)  SET x = y, y = x: the database swaps, the session evaluates one clause after the other *)
-Example set_order_refuted :
+(* (e)  SET x = y, y = x: the database swaps.  Repaired by c4d3d0a: the session evaluates both right-hand sides
+   on the old object state and then assigns (formerly one clause after the other: x = y = old y) *)
+Example set_order_now_faithful :
   let e := ETrue in
   let sets := [(0%nat, ECol 1); (1%nat, ECol 0)] in
   let r := mkrow (SInt 1) (SInt 2) SNull SNull in
-  sets_independent sets = false /\
-  (exists o', update_obj scx e sets (obj_of r) = OOk o' /\ o' 0%nat = Loaded (SInt 2) /\ o' 1%nat = Loaded (SInt 2)) /\
+  (exists o', update_obj scx e sets (obj_of r) = OOk o' /\ o' 0%nat = Loaded (SInt 2) /\ o' 1%nat = Loaded (SInt 1)) /\
   update_row e sets r 0%nat = SInt 2 /\ update_row e sets r 1%nat = SInt 1.
 Proof. vm_compute. repeat split. eexists. repeat split. Qed.
 
